@@ -1480,6 +1480,13 @@ class Interp:
 
     def call_pkg(self, pf, args, kwargs):
         con = C.CONTRACTS.get((pf.file, pf.qual))
+        # arrays of abstract points (uninterpreted sort per row) select the
+        # callee's "abstract-points" contract variant when it has one
+        if any(isinstance(self.unwrap(a), SymSeq) and
+               str(self.unwrap(a).elem).startswith("Sort(")
+               for a in list(args) + list(kwargs.values())):
+            con = C.CONTRACTS.get(
+                (pf.file, pf.qual + "#abstract-points"), con)
         src = Source.get(pf.file)
         fn, _ = src.find(pf.qual)
         if fn is None:
